@@ -506,6 +506,12 @@ class MapRoles(object):
                     stores.setdefault(t[2], set()).add(e.d["value"])
         def field_from(pname):
             out = [f for f, vs in stores.items() if any(contains(v, ("param", pname)) or v == ("param", pname) for v in vs)]
+            if len(out) > 1:
+                # the field that keeps the callable itself (possibly with a default: `fn or identity`), not a flag or
+                # other value computed from it
+                keep = [f for f in out if any(v == ("param", pname) or (isinstance(v, tuple) and v[0] in ("or", "ifexp", "boolop") and contains(v, ("param", pname))) for v in stores[f])]
+                if len(keep) == 1:
+                    out = keep
             if len(out) != 1:
                 raise AnalysisError("MapFuture.__init__: field set from `%s` not unique (%s)" % (pname, out))
             return out[0]
@@ -691,7 +697,7 @@ def iteration_rule(ctx, rep, Qx, rule):
                     if not ok:
                         cs = callers.get(fi.key, set())
                         ok = bool(cs) and all(_caller_holds(ctx, fi, ck, cik, Qx) for ck, cik in cs)
-                    rep.ob(rule, "%s: iteration over the %s queue is protected" % (fi.qualname, Qx.cls.name), ok, "the live %s is iterated without the executor lock and without taking a copy first: a concurrent removal makes the iterator skip an entry (the job of a finished attempt is then not found)" % fmt(c), where_of_(fi, e), None)
+                    rep.ob(rule, "%s: iteration over the %s queue is protected" % (fi.qualname, Qx.cls.name), ok, "the live %s is iterated without its owner's lock and without taking a copy first: a removal by another thread makes the iterator skip the entry behind the removed one" % fmt(c), where_of_(fi, e), None)
     return n
 
 
@@ -818,6 +824,33 @@ def rebuild_rule(ctx, rep, cls, field, rule, what):
         for (fn, _ln), (held, e) in sorted(inserts.items()):
             rep.ob(rule, "%s: insertion into %s under the lock that guards its rebuild" % (fn, what), held, "%s() on the list without its lock: the insertion can land between the walk and the store of a concurrent rebuild, and the new entry is dropped" % q.call_name(e), where_of_(e.fn, e), None)
     return n
+
+
+def shrink_rule(ctx, rep, cls, field, rule, what):
+    """how a shared list loses entries decides what its readers may do.  Rebuilt (self.F = [...]): walk and store in
+    one hold of the lock, insertions under that lock (rebuild_rule) -- readers may then walk the list they got hold of
+    without the lock, nobody mutates it.  Shrunk in place (remove / pop / del): every walk over the live list must
+    hold the lock or go over a copy, or the iterator skips the entry after the removed one.
+    Returns (rebuild sites, in-place removal sites)."""
+    nreb = rebuild_rule(ctx, rep, cls, field, rule, what)
+    own = set(m.key for c in cls.mro() if isinstance(c, ClassInfo) for m in c.methods.values())
+    nin = 0
+    for m in [m for c in cls.mro() if isinstance(c, ClassInfo) for m in c.methods.values() if cls.lookup(m.name)[1] is m and m.name != "__init__"]:
+        ps, it = ctx.paths(m, cls, depth=0)
+        sites = set()
+        for p in ps:
+            for e in p.calls():
+                r = q.recv(e)
+                if e.fn is m and q.call_name(e) in ("remove", "pop", "popleft", "clear", "discard") and isinstance(r, tuple) and r[0] == "attr" and r[2] == field and r[1] == SELF:
+                    sites.add(e.node.lineno)
+            for e in p.evs("del"):
+                t = e.d["target"]
+                if isinstance(t, tuple) and t[0] == "sub" and t[1] == ("attr", SELF, field):
+                    sites.add(e.node.lineno)
+        nin += len(sites)
+    if nin:
+        iteration_rule(ctx, rep, Queue(ctx, cls, field=field), rule)
+    return nreb, nin
 
 
 class RetryRoles(object):
